@@ -292,9 +292,10 @@ pub fn prove_line(line: &str) -> String {
         return "bad-request".into();
     }
     let h: Vec<&str> = parts[0].split_whitespace().collect();
-    if h.len() != 8 {
+    if h.len() != 8 && h.len() != 9 {
         return "bad-request".into();
     }
+    let routes = h.len() == 9 && h[8] == "routes";
     let pp = match crate::kzg::setup(h[1], &h[2..5]) {
         Some(Ok(pp)) => pp,
         Some(Err(e)) => return format!("err:srs:{:?}", e),
@@ -321,9 +322,47 @@ pub fn prove_line(line: &str) -> String {
         hsh.push_u64(*b as u64);
     }
     let vh = hsh.hex();
-    let mut rng = ScriptRng::scripted(0xabc, draws);
+    let mut rng = ScriptRng::scripted(0xabc, draws.clone());
     match prover.prove_with_version(&mut rng, &cb, ver) {
-        Ok((proof, pis)) => format!("proof={} pis={} vh={} calls={}", bytes_hex(&proof.to_bytes()), show_list(&pis), vh, rng.calls),
+        Ok((proof, pis)) => {
+            let mut extra = String::new();
+            if routes {
+                // implementation-vs-property: the same keys from the compressed description and from bytes
+                let own = match verifier.verify_with_version(&proof, &pis, ver) {
+                    Ok(()) => "ok".to_string(),
+                    Err(e) => format!("{:?}", e).replace(' ', "_"),
+                };
+                crate::prog::DEFAULT_SRC.with(|s| *s.borrow_mut() = parts[1].trim().to_string());
+                let cmp = match <ProgCircuit as Circuit>::compress() {
+                    Ok(bytes) => match Compiler::compile_with_compressed(&pp, &label, &bytes) {
+                        Ok((p2, v2)) => {
+                            if p2.to_bytes() == prover.to_bytes() && v2.to_bytes() == vb { "ok".to_string() } else { "differ".to_string() }
+                        }
+                        Err(e) => format!("err:{:?}", e).replace(' ', "_"),
+                    },
+                    Err(e) => format!("err:{:?}", e).replace(' ', "_"),
+                };
+                let ser = match (Prover::try_from_bytes(prover.to_bytes()), Verifier::try_from_bytes(&vb)) {
+                    (Ok(p3), Ok(v3)) => {
+                        let mut rng3 = ScriptRng::scripted(0xabc, draws.clone());
+                        match p3.prove_with_version(&mut rng3, &cb, ver) {
+                            Ok((proof3, pis3)) => {
+                                if proof3.to_bytes() == proof.to_bytes() && pis3 == pis && v3.verify_with_version(&proof3, &pis3, ver).is_ok()
+                                    && p3.to_bytes() == prover.to_bytes() && v3.to_bytes() == vb {
+                                    "ok".to_string()
+                                } else {
+                                    "differ".to_string()
+                                }
+                            }
+                            Err(e) => format!("err:{:?}", e).replace(' ', "_"),
+                        }
+                    }
+                    (Err(e), _) | (_, Err(e)) => format!("err:{:?}", e).replace(' ', "_"),
+                };
+                extra = format!(" own={} cmp={} ser={}", own, cmp, ser);
+            }
+            format!("proof={} pis={} vh={} calls={}{}", bytes_hex(&proof.to_bytes()), show_list(&pis), vh, rng.calls, extra)
+        }
         Err(Error::CircuitUnsatisfied) => format!("err:unsat vh={}", vh),
         Err(Error::InvalidCircuitSize(_, _)) => format!("err:sizeerr vh={}", vh),
         Err(Error::UnsupportedProvingVersion) => format!("err:UnsupportedProvingVersion vh={}", vh),
